@@ -306,6 +306,14 @@ fn replay_one(beh: &[Value], n: usize, w: Duration, emb: &Emb, variant: usize) -
                 if r.num_events_remaining() as u64 != e["remaining"].as_u64().unwrap() {
                     return Err(json!({"field": "num_events_remaining after add_event", "expected": e["remaining"], "got": r.num_events_remaining(), "step": pos}));
                 }
+                let nid = SCRIPT.with(|s| s.borrow().nid) as usize;
+                if r.num_events_scheduled() != nid {
+                    return Err(json!({"field": "num_events_scheduled (number of accepted add_event calls)", "expected": nid, "got": r.num_events_scheduled(), "step": pos}));
+                }
+                let started = pos > start_idx;
+                if r.was_started() != started {
+                    return Err(json!({"field": "was_started", "expected": started, "got": r.was_started(), "step": pos}));
+                }
             }
             "start" => {
                 SCRIPT.with(|s| s.borrow_mut().pos += 1);
@@ -368,6 +376,13 @@ fn replay_one(beh: &[Value], n: usize, w: Duration, emb: &Emb, variant: usize) -
                 }
                 if *r.sim_time() != emb.map(end["sim_time"].as_u64().unwrap()) {
                     return Err(json!({"field": "sim_time while paused", "expected": end["sim_time"], "got": format!("{:?}", emb.inv(*r.sim_time())), "step": p}));
+                }
+                let nid = SCRIPT.with(|s| s.borrow().nid) as usize;
+                if r.num_events_scheduled() != nid {
+                    return Err(json!({"field": "num_events_scheduled (number of accepted add_event calls)", "expected": nid, "got": r.num_events_scheduled(), "step": p}));
+                }
+                if !r.was_started() {
+                    return Err(json!({"field": "was_started", "expected": true, "got": false, "step": p}));
                 }
             }
             "finish" => {
